@@ -11,6 +11,8 @@ pub mod c10;
 pub mod c11;
 pub mod c12;
 pub mod c13;
+pub mod c14;
+pub mod c16;
 pub mod l2scen;
 
 use crate::engine::Prop;
@@ -30,5 +32,7 @@ pub fn registry() -> Vec<Box<dyn Prop>> {
         Box::new(c11::C11),
         Box::new(c12::C12),
         Box::new(c13::C13),
+        Box::new(c14::C14),
+        Box::new(c16::C16),
     ]
 }
